@@ -255,6 +255,59 @@ let run_proxy (args : string list) : string =
            | _ -> raise (Unsupported op))) ops;
     String.concat " " (List.rev !out)
 
+(* ---- chain: same case syntax as harness/src/chain.rs.  By the Chain theorems the outcome does
+   not depend on the schedule: the model runs every pending hop to completion before a recv of a client. ---- *)
+let run_chain (args : string list) : string =
+  match split_ops args with
+  | [] -> "empty"
+  | head :: ops ->
+    let nc = int_of_string (List.nth head 0) and nw = int_of_string (List.nth head 1) in
+    let with_cap = List.mem "cap" head in
+    let ids = List.init nc (fun c ->
+      let s = Printf.sprintf "C%d" c in
+      bytes_of_str (String.concat "" (List.init (if c mod 2 = 0 then 1 else 8) (fun _ -> s)))) in
+    let reply d = [n_of_int 7] :: d in
+    let st = ref (Chain.chain0 ids (nat_of_int nw)) in
+    let stepc e = st := Chain.cstep reply !st e in
+    let settle () =
+      let continue = ref true and guard = ref 0 in
+      while !continue && !guard < 1000 do
+        let before = !st in
+        for c = 0 to nc - 1 do stepc (Chain.CFront (nat_of_int c)) done;
+        for w = 0 to nw - 1 do stepc (Chain.CServe (nat_of_int w)) done;
+        for w = 0 to nw - 1 do stepc (Chain.CBack (nat_of_int w)) done;
+        incr guard;
+        continue := (!st <> before)
+      done in
+    let out = ref [] in
+    List.iter (fun toks ->
+      match toks with
+      | [] -> ()
+      | ["req"; c; fs] ->
+          let c = int_of_string c in
+          let p = List.map bytes_tok (String.split_on_char ';' fs) in
+          let cl = List.nth (!st).Chain.ch_clients c in
+          if cl.Chain.cl_out then out := ("q=err:ReturnToSender:" ^ msg_hex p) :: !out
+          else begin stepc (Chain.CReq (nat_of_int c, p)); out := "q=ok" :: !out end
+      | ["recv"; c] ->
+          let c = int_of_string c in
+          let cl = List.nth (!st).Chain.ch_clients c in
+          if not cl.Chain.cl_out then out := "r=err:Other" :: !out
+          else begin
+            settle ();
+            let n0 = List.length cl.Chain.cl_got in
+            stepc (Chain.CRecv (nat_of_int c));
+            let cl' = List.nth (!st).Chain.ch_clients c in
+            if List.length cl'.Chain.cl_got > n0 then out := ("r=ok:" ^ msg_hex (List.nth cl'.Chain.cl_got n0)) :: !out
+            else if cl'.Chain.cl_out then out := "r=timeout" :: !out
+            else out := "r=err:Other" :: !out
+          end
+      | op :: _ -> raise (Unsupported op)) ops;
+    if with_cap then out := "cap=all" :: !out;
+    settle ();
+    out := (if (!st).Chain.ch_lost = [] then "proxy=running" else "proxy=ended") :: !out;
+    String.concat " " (List.rev !out)
+
 (* ---- endpoints.  IPv6 text form (std::net::Ipv6Addr FromStr / Display) is supplied here, as the
    instantiation of the model's Section variables parse6 / fmt6: hand-written, trusted, and
    differential-tested against the real std through the endpoint cases. ---- *)
@@ -416,6 +469,7 @@ let run_case kind (args : string list) : string =
   | "own" -> run_own args
   | "ep" -> run_ep args
   | "proxy" -> (try run_proxy args with Unsupported s -> "model-unsupported " ^ s)
+  | "chain" -> (try run_chain args with Unsupported s -> "model-unsupported " ^ s)
   | "ts" -> run_ts args
   | "fq" -> run_fq args
   | "sock" -> (try run_sock args with Unsupported s -> "model-unsupported " ^ s)
